@@ -69,6 +69,9 @@ type Case struct {
 	// DlSizes: the total size each of the three open downloads announced when it was opened
 	// (agent-supplied 64-bit field; 0 = the historical default of 100 bytes)
 	DlSizes []uint64 `json:"dl_sizes,omitempty"`
+	// Scale: the bulk of the case (scale_test.go): a threshold-adjacent number of callbacks / tasks /
+	// sessions of one family, sent before, in the middle of and after the ordinary requests
+	Scale *Scale `json:"scale,omitempty"`
 }
 
 // family of a layout: the state it works on
@@ -133,6 +136,7 @@ func keyOf(i int, zero bool) ([]byte, []byte) {
 
 // template language: I int32  Q int64  B bool  S ascii bytes  W utf16 bytes  X random bytes
 //   digits after I pin the value (sub-command), *( ... ) repeats 0-3 times, N = a count (small int32)
+//   D<n> = an object id with the default value n (a bulk replaces it by distinct ids)
 type layout struct {
 	cmd  uint32
 	name string
@@ -167,7 +171,7 @@ var layouts = []layout{
 	{2520, "pivot.list", "I1 *(I W)"}, {2520, "pivot.connect.fail", "I10 I0 I"}, {2520, "pivot.disconnect", "I11 I P"}, {2520, "pivot.unknown", "I"},
 	{2530, "transfer.list", "I0 *(I I I)"}, {2530, "transfer.stop", "I1 I I"}, {2530, "transfer.resume", "I2 I I"}, {2530, "transfer.remove", "I3 I I"},
 	{2540, "sock.rpadd", "I0 I I I I I I"}, {2540, "sock.rplist", "I2 *(I I I I I)"}, {2540, "sock.rpremove", "I4 I I I I I I"}, {2540, "sock.rpclear", "I3 I"}, {2540, "sock.socksadd", "I5"},
-	{2540, "sock.open", "I16 I77 L I4444 L I9"}, {2540, "sock.open.any", "I16 I L I L I9"}, {2540, "sock.read.client", "I17 I77 I3 I1 X"}, {2540, "sock.read.proxy", "I17 I I2 I1 X"}, {2540, "sock.read.fail", "I17 I I I0 I"}, {2540, "sock.write", "I18 I I I I"}, {2540, "sock.close", "I19 I I"}, {2540, "sock.connect", "I20 I I I"},
+	{2540, "sock.open", "I16 D77 L I4444 L I9"}, {2540, "sock.open.any", "I16 I L I L I9"}, {2540, "sock.read.client", "I17 D77 I3 I1 X"}, {2540, "sock.read.proxy", "I17 I I2 I1 X"}, {2540, "sock.read.fail", "I17 I I I0 I"}, {2540, "sock.write", "I18 I I I I"}, {2540, "sock.close", "I19 I I"}, {2540, "sock.connect", "I20 I I I"},
 	{2550, "krb.luid", "I0 I I I"}, {2550, "krb.klist", "I1 I1 N *(W W I I I W I I I W W W W N *(W W W W I I I I I I I I X))"}, {2550, "krb.purge", "I2 I"}, {2550, "krb.ptt", "I3 I"},
 	{2560, "memfile", "I I"}, {2570, "dropped", "I I"}, {1, "getjob", ""}, {10, "nojob", ""}, {0x7777, "unknown", "I S"},
 }
@@ -176,6 +180,7 @@ type bodyGen struct {
 	t      *rapid.T
 	e      *demonref.Enc
 	lenPos []int // offsets of length prefixes
+	intPos []int // offsets of the free integer fields (I, T, D<n>): candidates for the id a bulk varies
 	n      int
 }
 
@@ -254,12 +259,14 @@ func (g *bodyGen) seq(toks []string) {
 			i = j - 1
 		case tk == ")":
 		case tk == "I":
+			g.intPos = append(g.intPos, len(g.e.B))
 			g.e.Int32(g.i32())
 		case tk == "N":
 			g.e.Int32(rapid.OneOf(rapid.Uint32Range(0, 4), rapid.SampledFrom([]uint32{0x7fffffff, 0xffffffff})).Draw(g.t, g.label("n")))
 		case tk == "P":
 			g.e.Int32(rapid.SampledFrom([]uint32{childID, agentIDs[0], agentIDs[1], 0, 0xdeadbeef}).Draw(g.t, g.label("p")))
 		case tk == "T": // the id of a transfer that the Download state has open
+			g.intPos = append(g.intPos, len(g.e.B))
 			g.e.Int32(rapid.SampledFrom([]uint32{7, 8, 9}).Draw(g.t, g.label("t")))
 		case tk == "L": // loopback address as the Demon reports it (in_addr word written big-endian): 127.0.0.1
 			g.e.Int32(0x0100007f)
@@ -293,6 +300,11 @@ func (g *bodyGen) seq(toks []string) {
 				blob = blob[:cut]
 			}
 			g.bytesField(blob)
+		case len(tk) > 1 && tk[0] == 'D':
+			var v uint32
+			fmt.Sscanf(tk[1:], "%d", &v)
+			g.intPos = append(g.intPos, len(g.e.B))
+			g.e.Int32(v)
 		case len(tk) > 1 && tk[0] == 'I':
 			var v uint32
 			fmt.Sscanf(tk[1:], "%d", &v)
@@ -536,8 +548,19 @@ func gen(t *rapid.T) Case {
 		}
 		n = rapid.IntRange(2, 6).Draw(t, "nreqs-focused")
 	}
+	// scale (scale_test.go): 3 cases in 128 carry a bulk of one family; its ordinary requests focus on that family
+	if scaled(t) {
+		c.Scale = genScale(t, &c)
+		if len(c.DlSizes) == 0 {
+			c.DlSizes = []uint64{100, 0, 0xffffffffffffffff}
+		}
+		n = rapid.IntRange(2, 6).Draw(t, "nreqs-scale")
+	}
 	for i := 0; i < n; i++ {
 		c.Reqs = append(c.Reqs, genReq(t, c, i))
+	}
+	if c.Scale != nil {
+		placeScale(t, &c)
 	}
 	return c
 }
@@ -624,70 +647,24 @@ func check(c Case) *core.Violation {
 		w.Checkin(sessions[0], subs)
 	}
 
+	var bulk *bulkRun
+	if c.Scale != nil {
+		bulk = newBulk(w, c, sessions)
+		defer bulk.close()
+	}
 	for ri, r := range c.Reqs {
-		// every live agent has an outstanding request id before the request
-		for _, a := range w.TS.Agents.Agents {
-			for k := uint32(0); a != nil && k < 5; k++ {
-				if !a.IsKnownRequestID(w.TS, outstanding+k, agent.COMMAND_SLEEP) {
-					a.AddRequest(agent.Job{RequestID: outstanding + k, Command: agent.COMMAND_SLEEP})
-				}
-			}
-		}
-		times := 1
-		if r.Twice {
-			times = 2
-		}
-		for rep := 0; rep < times; rep++ {
-			// the classifier's verdict holds only while the header does not name a session that exists NOW
-			// (an earlier request of this case may have registered the id): traffic for a live id is known-session traffic
-			invalid := r.Invalid
-			if len(r.Raw) >= 12 && binary.BigEndian.Uint32(r.Raw[4:8]) == demonref.Magic && w.Agent(binary.BigEndian.Uint32(r.Raw[8:12])) != nil {
-				invalid = false
-			}
-			var before string
-			if invalid {
-				before = snapshot(w)
-			}
-			var code int
-			lbl := cls(r)
-			v := core.WithWatchdog(30*time.Second, "request|"+lbl, func() *core.Violation {
-				if r.Via == "ext" {
-					code, _ = w.PostExtCL(r.Raw, r.CL)
-				} else {
-					code, _ = w.PostCL(r.Raw, r.CL)
-				}
-				return nil
-			})
-			if v != nil {
-				v.Msg = fmt.Sprintf("request %d (%s, %d bytes, via %s): %s", ri, r.Note, len(r.Raw), r.Via, v.Msg)
+		if bulk != nil {
+			if v := bulk.before(ri); v != nil {
 				return v
 			}
-			if code != 200 && code != 404 {
-				return core.V("status|"+lbl, "request %d (%s): HTTP status %d, expected the protocol reply (200) or the decoy 404", ri, r.Note, code)
-			}
-			for _, a := range w.TS.Agents.Agents {
-				if a == nil {
-					return core.V("state|nil-session|"+lbl, "request %d (%s) left a nil entry in the session table", ri, r.Note)
-				}
-				for _, m := range []struct {
-					n string
-					f func() bool
-					u func()
-				}{{"PortFwdsMtx", a.PortFwdsMtx.TryLock, a.PortFwdsMtx.Unlock}, {"SocksCliMtx", a.SocksCliMtx.TryLock, a.SocksCliMtx.Unlock}, {"SocksSvrMtx", a.SocksSvrMtx.TryLock, a.SocksSvrMtx.Unlock}} {
-					if !m.f() {
-						return core.V("lock-held|"+m.n+"|"+lbl, "request %d (%s): %s of %s is still held after the handler returned", ri, r.Note, m.n, a.NameID)
-					}
-					m.u()
-				}
-			}
-			if invalid {
-				if code != 404 {
-					return core.V("invalid-traffic|answered|"+lbl, "request %d (%s) is not valid Demon / third-party traffic but got status %d", ri, r.Note, code)
-				}
-				if after := snapshot(w); after != before {
-					return core.V("invalid-traffic|state-changed|"+lbl, "request %d (%s) is not valid Demon / third-party traffic but changed state:\n--- before\n%.1500s\n--- after\n%.1500s", ri, r.Note, before, after)
-				}
-			}
+		}
+		if v := doReq(w, ri, r); v != nil {
+			return v
+		}
+	}
+	if bulk != nil {
+		if v := bulk.before(len(c.Reqs)); v != nil {
+			return v
 		}
 	}
 	// stop what requests may have started (reverse port forward dials to loopback)
@@ -698,6 +675,75 @@ func check(c Case) *core.Violation {
 		for _, p := range a.PortFwds {
 			if p != nil && p.Conn != nil {
 				p.Conn.Close()
+			}
+		}
+	}
+	return nil
+}
+
+// doReq sends one request and evaluates the whole oracle of C01(a) on it.
+func doReq(w *agx.World, ri int, r Req) *core.Violation {
+	// every live agent has an outstanding request id before the request
+	for _, a := range w.TS.Agents.Agents {
+		for k := uint32(0); a != nil && k < 5; k++ {
+			if !a.IsKnownRequestID(w.TS, outstanding+k, agent.COMMAND_SLEEP) {
+				a.AddRequest(agent.Job{RequestID: outstanding + k, Command: agent.COMMAND_SLEEP})
+			}
+		}
+	}
+	times := 1
+	if r.Twice {
+		times = 2
+	}
+	for rep := 0; rep < times; rep++ {
+		// the classifier's verdict holds only while the header does not name a session that exists NOW
+		// (an earlier request of this case may have registered the id): traffic for a live id is known-session traffic
+		invalid := r.Invalid
+		if len(r.Raw) >= 12 && binary.BigEndian.Uint32(r.Raw[4:8]) == demonref.Magic && w.Agent(binary.BigEndian.Uint32(r.Raw[8:12])) != nil {
+			invalid = false
+		}
+		var before string
+		if invalid {
+			before = snapshot(w)
+		}
+		var code int
+		lbl := cls(r)
+		v := core.WithWatchdog(30*time.Second, "request|"+lbl, func() *core.Violation {
+			if r.Via == "ext" {
+				code, _ = w.PostExtCL(r.Raw, r.CL)
+			} else {
+				code, _ = w.PostCL(r.Raw, r.CL)
+			}
+			return nil
+		})
+		if v != nil {
+			v.Msg = fmt.Sprintf("request %d (%s, %d bytes, via %s): %s", ri, r.Note, len(r.Raw), r.Via, v.Msg)
+			return v
+		}
+		if code != 200 && code != 404 {
+			return core.V("status|"+lbl, "request %d (%s): HTTP status %d, expected the protocol reply (200) or the decoy 404", ri, r.Note, code)
+		}
+		for _, a := range w.TS.Agents.Agents {
+			if a == nil {
+				return core.V("state|nil-session|"+lbl, "request %d (%s) left a nil entry in the session table", ri, r.Note)
+			}
+			for _, m := range []struct {
+				n string
+				f func() bool
+				u func()
+			}{{"PortFwdsMtx", a.PortFwdsMtx.TryLock, a.PortFwdsMtx.Unlock}, {"SocksCliMtx", a.SocksCliMtx.TryLock, a.SocksCliMtx.Unlock}, {"SocksSvrMtx", a.SocksSvrMtx.TryLock, a.SocksSvrMtx.Unlock}} {
+				if !m.f() {
+					return core.V("lock-held|"+m.n+"|"+lbl, "request %d (%s): %s of %s is still held after the handler returned", ri, r.Note, m.n, a.NameID)
+				}
+				m.u()
+			}
+		}
+		if invalid {
+			if code != 404 {
+				return core.V("invalid-traffic|answered|"+lbl, "request %d (%s) is not valid Demon / third-party traffic but got status %d", ri, r.Note, code)
+			}
+			if after := snapshot(w); after != before {
+				return core.V("invalid-traffic|state-changed|"+lbl, "request %d (%s) is not valid Demon / third-party traffic but changed state:\n--- before\n%.1500s\n--- after\n%.1500s", ri, r.Note, before, after)
 			}
 		}
 	}
@@ -750,8 +796,15 @@ func classify(c Case) core.Class {
 	if c.Focus != "" {
 		cl.Labels = append(cl.Labels, "focus:"+c.Focus)
 	}
+	if c.Scale != nil {
+		cl.Labels = append(cl.Labels, scaleLabels(c)...)
+		cl.NonTrivial = true // the bulk is valid traffic of a registered session by construction
+	}
 	last := c.Reqs[len(c.Reqs)-1]
 	cl.Fingerprint = fmt.Sprintf("%s|n=%d|p=%v|s=%v|d=%v|len=%d", cls(last), c.NAgents, c.Pivot, c.Service, c.Download, bucket(len(last.Raw)))
+	if c.Scale != nil {
+		cl.Fingerprint = fmt.Sprintf("scale:%s:%s|%s|p=%v|relay=%v", c.Scale.What, scaleBucket(c.Scale.N), cls(last), c.Pivot, c.Scale.Relay)
+	}
 	return cl
 }
 
@@ -772,11 +825,12 @@ var _ = bytes.Equal
 func TestC01(t *testing.T) {
 	core.Run(t, core.Spec[Case]{
 		Property: "C01", Sub: "a",
-		Rule: "state (0-3 registered agents incl. id >= 2^31 and a zero-key agent, SMB child, three open downloads whose announced sizes include 0, 2^63 and 2^64-1, Service block on/off, five outstanding request ids on every agent) built through the real endpoints, then 1-4 requests (2-6 in the half of the cases that focus on one family of layouts - downloads, sockets, tokens, jobs, ... - so that one handler sees a run of related messages) via the HTTP listener engine or the External-C2 handler: one request in twenty announces a Content-Length that is not its body's length (0, -1, 1, 2^20 ... 2^63-1); A random bytes (all lengths 0-24, up to 300); B batches of 1-3 grammar-valid callbacks drawn from 140 command/sub-command layouts of TaskDispatch, each corrupted by integer fields also drawn from the keys of the lookup tables TaskDispatch indexes (win32.Protections, InjectErrors, Win32ErrorCodes as found in the tree under test); truncation / length-prefix rewrite / appended bytes / bit flip, plus SMB_CONNECT with a (cut / mismatching) child registration, relayed SMB_COMMAND packages, CHECKIN metadata, self-nested pivot packages to depth 400, header corruptions (magic, unknown id, id 0, other key, header command, cut, size); C registrations (valid, truncated, id mismatch, existing id, zero key, trailing bytes). Oracle: no panic, returns within 30 s, status 200/404, all agent mutexes free, traffic classified invalid by the harness gets 404 and leaves sessions/queues/DB/loot identical. Non-trivial: a class B/C request that passes header, magic and session lookup; distinct = (class:first layout, #agents, pivot, service, download, length bucket)",
+		Rule: "state (0-3 registered agents incl. id >= 2^31 and a zero-key agent, SMB child, three open downloads whose announced sizes include 0, 2^63 and 2^64-1, Service block on/off, five outstanding request ids on every agent) built through the real endpoints, then 1-4 requests (2-6 in the half of the cases that focus on one family of layouts - downloads, sockets, tokens, jobs, ... - so that one handler sees a run of related messages) via the HTTP listener engine or the External-C2 handler: one request in twenty announces a Content-Length that is not its body's length (0, -1, 1, 2^20 ... 2^63-1); A random bytes (all lengths 0-24, up to 300); B batches of 1-3 grammar-valid callbacks drawn from 140 command/sub-command layouts of TaskDispatch, each corrupted by integer fields also drawn from the keys of the lookup tables TaskDispatch indexes (win32.Protections, InjectErrors, Win32ErrorCodes as found in the tree under test); truncation / length-prefix rewrite / appended bytes / bit flip, plus SMB_CONNECT with a (cut / mismatching) child registration, relayed SMB_COMMAND packages, CHECKIN metadata, self-nested pivot packages to depth 400, header corruptions (magic, unknown id, id 0, other key, header command, cut, size); C registrations (valid, truncated, id mismatch, existing id, zero key, trailing bytes). Oracle: no panic, returns within 30 s, status 200/404, all agent mutexes free, traffic classified invalid by the harness gets 404 and leaves sessions/queues/DB/loot identical. Non-trivial: a class B/C request that passes header, magic and session lookup; distinct = (class:first layout, #agents, pivot, service, download, length bucket) SCALE (scale_test.go; 3 cases in 128, labels scale:<what>:<bucket>): the case carries a BULK of N objects of one kind for one session, N drawn from the threshold-adjacent pool {63,64,65, 127,128,129, 255,256,257, 511,512,513, 999,1000,1001, 1023,1024,1025, 2047,2048,2049, 4095,4096,4097, 8191,8192,8193} (three bulks in eight stop at 999-1025), with N consecutive distinct ids starting at 0, 1, 70, 0x1000, 2^31-256 or 2^32-256 (crossing the sign bit / wrapping), pushed into one of the tables the teamserver keeps per session by the callback (or the operator-side call) that adds to it: portfwd = SOCKET_COMMAND_OPEN (Agent.PortFwds, always accepted; up to 8193), socks = SocksClientAdd as the socks accept loop calls it, then CONNECT ok / CONNECT+READ / CONNECT refused / CONNECT+CLOSE callbacks for every id (Agent.SocksCli; up to 4097), download = FS download-open or BEACON CALLBACK_FILE under an outstanding request id (Agent.Downloads, one file each; up to 4097), links = DEMON_PIVOT_SMB_CONNECT with the registration of one more SMB child (Pivots.Links + session table; up to 1025), bof = Agent.TaskPrepare(COMMAND_INLINEEXECUTE, HasCallback) + AddJobToQueue as DispatchEvent does, then BEACON output + RAN_OK / COULD_NOT_RUN for every task (BofCallbacks, Tasks, JobQueue incl. mem-file chunks; up to 2049), jobs = the same with sleep tasks and their callbacks (Tasks, JobQueue; up to 2049), sessions = N DEMON_INIT registrations with distinct agent ids (session table; up to 1025), callbacks = one generated layout of the focus family repeated N times, one of its free integer fields (preferably the first = the object id) taking the N ids, every copy answering an outstanding request id of its own (N outstanding ids through AddRequest) or the shared one (up to 4097); the quick tier cuts the pool at what one case affords (8193 only for table appends; ~1 ms per session / link), the thorough tier goes one step further up (8193 / 4097 / 2049). The bulk is cut into requests of PerReq callbacks: all N in ONE request (64-8193 sub-packages in a batch), one per request (up to 1025 requests in the case) or a threshold-adjacent number; via the HTTP engine or External-C2; one in four of the bulks of a state with an SMB child belongs to the child and arrives relayed inside SMB_COMMAND packages of agent 0. The 2-6 ordinary requests of the case focus on the family of the bulk and are placed before it, between its two halves and after it. Oracle at scale: every bulk request returns within 30 s with 200/404 and without panic; at the checkpoints (after the first half, when the count is reached, after ONE MORE object of the same kind sent through the ordinary path with the whole oracle, and after the closing plain check-ins) no session entry is nil and PortFwdsMtx, SocksCliMtx, SocksSvrMtx and QueueMtx of every session can be taken; the closing check-in of the session (which exists) must get the protocol reply 200.",
 		Gen:   gen, Check: check, Classify: classify,
 		Assumptions: []string{
 			"no third-party agent type is registered in generated states, so every non-Demon magic value is invalid traffic",
 			"outbound dials caused by reverse-port-forward callbacks go to 127.0.0.1 or fail fast in the sealed sandbox",
+			"scale: operator-side objects (tasks, BOF callbacks, socks clients) are created by the calls the teamserver itself makes for them (TaskPrepare+AddJobToQueue, SocksClientAdd, AddRequest), not through an operator websocket; the socks client end of every bulk socket is a pipe whose other end is drained",
 		},
 	})
 }
